@@ -16,12 +16,12 @@ Qed.
 
 Definition body_of (m : msg) : list byte := cabs (m_body m).
 
-Theorem pull_up_spec m sh f1 f2 : Inv m ->
-  exists r, ip_pull_up m sh f1 f2 = Some r /\
+Theorem pull_up_spec chk m sh f1 f2 : Inv m ->
+  exists r, ip_pull_up chk m sh f1 f2 = Some r /\
     match r with
     | Some m' => Inv m' /\ m_hdr m' = [] /\
         (body_of m' = m_hdr m ++ body_of m \/
-         (f2 = true /\ sh = false /\ (chunk_room (m_body m) <? length (m_hdr m)) = false /\ body_of m' = body_of m))
+         (chk = false /\ f2 = true /\ sh = false /\ (chunk_room (m_body m) <? length (m_hdr m)) = false /\ body_of m' = body_of m))
     | None => f1 || f2 = true
     end.
 Proof.
@@ -53,20 +53,23 @@ Proof.
         apply firstn_app_exact. reflexivity.
   - apply orb_false_iff in EB. destruct EB as [ER ES]. subst sh.
     destruct (insert_total (m_body m) (m_hdr m) f2 HC) as [[rv c'] HIn]. rewrite HIn.
-    eexists. split; [reflexivity|]. cbn beta iota.
     destruct (insert_spec _ _ _ _ _ HC HIn) as [(-> & -> & ->)|(-> & HC' & Hab)].
-    + split; [split; [exact HC|cbn; lia]|]. split; [reflexivity|]. right. auto.
-    + split; [split; [exact HC'|cbn; lia]|]. split; [reflexivity|]. left. exact Hab.
+    + destruct chk; cbn [andb negb N.eqb ENOMEM].
+      * exists None. split; [reflexivity|]. apply orb_true_r.
+      * eexists. split; [reflexivity|]. cbn beta iota.
+        split; [split; [exact HC|cbn; lia]|]. split; [reflexivity|]. right. auto.
+    + rewrite andb_false_r. eexists. split; [reflexivity|]. cbn beta iota.
+      split; [split; [exact HC'|cbn; lia]|]. split; [reflexivity|]. left. exact Hab.
 Qed.
 
 (* no allocation fails: the result is exactly header ++ body, under every
    capacity / headroom / sharing case *)
-Corollary pull_up_exact m sh : Inv m ->
-  exists m', ip_pull_up m sh false false = Some (Some m') /\ Inv m' /\ abs m' = ([], m_hdr m ++ body_of m).
+Corollary pull_up_exact chk m sh : Inv m ->
+  exists m', ip_pull_up chk m sh false false = Some (Some m') /\ Inv m' /\ abs m' = ([], m_hdr m ++ body_of m).
 Proof.
-  intros HI. destruct (pull_up_spec m sh false false HI) as (r & HR & HS).
+  intros HI. destruct (pull_up_spec chk m sh false false HI) as (r & HR & HS).
   destruct r as [m'|]; [|discriminate].
-  destruct HS as (HI' & HH & [HB|(HF & _)]); [|discriminate].
+  destruct HS as (HI' & HH & [HB|(_ & HF & _)]); [|discriminate].
   exists m'. split; [exact HR|]. split; [exact HI'|]. unfold abs. rewrite HH. f_equal. exact HB.
 Qed.
 
@@ -80,7 +83,7 @@ Lemma pullup_witness_inv : Inv pullup_witness.
 Proof. split; [exists 32; unfold ch_cap; cbn; repeat split; lia|cbn; unfold HDR_CAP; lia]. Qed.
 
 Theorem pull_up_enomem_loses_header :
-  exists m', ip_pull_up pullup_witness false false true = Some (Some m') /\
+  exists m', ip_pull_up false pullup_witness false false true = Some (Some m') /\
              m_hdr m' = [] /\ body_of m' = repeat 9%N 20 /\ m_hdr pullup_witness = repeat 7%N 40.
 Proof. eexists. split; [vm_compute; reflexivity|]. repeat split. Qed.
 
@@ -113,9 +116,9 @@ Proof.
   - apply Forall_app. split; [exact Hx|]. apply Forall_forall. intros y Hy. apply Hab; [left; reflexivity|exact Hy].
 Qed.
 
-Definition handoff_ok (sent : list (msg * bool * bool)) (sm : nat * msg) : Prop :=
+Definition handoff_ok (chk : bool) (sent : list (msg * bool * bool)) (sm : nat * msg) : Prop :=
   exists m f1 f2, nth_error sent (fst sm) = Some (m, f1, f2) /\ Inv (snd sm) /\ m_hdr (snd sm) = [] /\
-            (body_of (snd sm) = m_hdr m ++ body_of m \/ (f2 = true /\ body_of (snd sm) = body_of m)).
+            (body_of (snd sm) = m_hdr m ++ body_of m \/ (chk = false /\ f2 = true /\ body_of (snd sm) = body_of m)).
 Definition drop_ok (sent : list (msg * bool * bool)) (s : nat) : Prop :=
   exists m f1 f2, nth_error sent s = Some (m, f1, f2) /\ f1 || f2 = true.
 
@@ -124,12 +127,12 @@ Proof. unfold drops. apply flat_map_app. Qed.
 
 (* the hand-off loop: what leaves the queue is a front segment of the writers,
    in order; each handed-off message is the pull-up of the queued one *)
-Lemma run_loop_spec sent : forall fuel q, QInv sent q -> Forall (fun w => Inv (w_msg w)) (q_writers q) ->
-  exists q' o, run_loop fuel q = Some (q', o) /\ QInv sent q' /\
+Lemma run_loop_spec chk sent : forall fuel q, QInv sent q -> Forall (fun w => Inv (w_msg w)) (q_writers q) ->
+  exists q' o, run_loop chk fuel q = Some (q', o) /\ QInv sent q' /\
     Forall (fun w => Inv (w_msg w)) (q_writers q') /\
     (exists n, fate_seqs o = seqs (firstn n (q_writers q)) /\ q_writers q' = skipn n (q_writers q)) /\
     q_next q' = q_next q /\ q_closed q' = q_closed q /\
-    Forall (handoff_ok sent) (handoffs o) /\ Forall (drop_ok sent) (drops o).
+    Forall (handoff_ok chk sent) (handoffs o) /\ Forall (drop_ok sent) (drops o).
 Proof.
   induction fuel as [|fuel IH]; intros q HQ HM.
   - exists q, []. cbn [run_loop]. split; [reflexivity|]. split; [exact HQ|]. split; [exact HM|].
@@ -145,7 +148,7 @@ Proof.
     pose proof (Forall_inv HM) as HIw. pose proof (Forall_inv_tail HM) as HMt. cbv beta in HIw.
     pose proof (Forall_inv HF) as [Hw1 Hw2]. pose proof (Forall_inv_tail HF) as HFt.
     cbn [seqs map] in HS. inversion HS as [|? ? HSt HSx]; subst.
-    destruct (pull_up_spec (w_msg w) (w_shared w) (w_fail1 w) (w_fail2 w) HIw) as (r & HR & HRS).
+    destruct (pull_up_spec chk (w_msg w) (w_shared w) (w_fail1 w) (w_fail2 w) HIw) as (r & HR & HRS).
     rewrite HR.
     destruct r as [pu|].
     + destruct (IH (mkQ rds ws (q_closed q) (q_next q))) as (q' & o & HRun & HQ' & HM' & (n & Hn1 & Hn2) & HN' & HC' & HH & HD).
@@ -159,7 +162,7 @@ Proof.
       cbn [handoffs drops flat_map app]. split; [|exact HD]. constructor; [|exact HH].
       exists (w_msg w), (w_fail1 w), (w_fail2 w). cbn [fst snd]. destruct HRS as (HIp & HHp & HBp).
       split; [exact Hw2|]. split; [exact HIp|]. split; [exact HHp|].
-      destruct HBp as [HB|(HF2 & _ & _ & HB)]; [left; exact HB|right; split; assumption].
+      destruct HBp as [HB|(HCk & HF2 & _ & _ & HB)]; [left; exact HB|right; split; [assumption|split; assumption]].
     + destruct (IH (mkQ (rd :: rds) ws (q_closed q) (q_next q))) as (q' & o & HRun & HQ' & HM' & (n & Hn1 & Hn2) & HN' & HC' & HH & HD).
       { split; [exact HSt|]. split; [exact HFt|exact HN]. }
       { exact HMt. }
@@ -205,16 +208,16 @@ Lemma drops_fail_map {A} (f : A -> aioid) rv (l : list A) : drops (map (fun x =>
 Proof. induction l as [|x l IH]; [reflexivity|]. cbn [map]. unfold drops in *. cbn [flat_map app]. exact IH. Qed.
 
 (* one operation *)
-Lemma step_spec sent q op : QInv sent q -> Forall (fun w => Inv (w_msg w)) (q_writers q) ->
+Lemma step_spec chk sent q op : QInv sent q -> Forall (fun w => Inv (w_msg w)) (q_writers q) ->
   (forall a m sh f1 f2, op = ISend a m sh f1 f2 -> Inv m) ->
   let sent' := sent ++ sent_msgs [op] in
-  exists q' o, ip_step q op = Some (q', o) /\ QInv sent' q' /\ Forall (fun w => Inv (w_msg w)) (q_writers q') /\
+  exists q' o, ip_step chk q op = Some (q', o) /\ QInv sent' q' /\ Forall (fun w => Inv (w_msg w)) (q_writers q') /\
     StronglySorted lt (fate_seqs o) /\
     (forall s, In s (fate_seqs o) -> s < q_next q') /\
     (forall s w, In s (fate_seqs o) -> In w (q_writers q') -> s < w_seq w) /\
     (forall s, In s (fate_seqs o) -> (exists w, In w (q_writers q) /\ w_seq w = s) \/ s = q_next q) /\
     q_next q <= q_next q' /\ (forall w, In w (q_writers q') -> (In w (q_writers q) \/ w_seq w = q_next q)) /\
-    Forall (handoff_ok sent') (handoffs o) /\ Forall (drop_ok sent') (drops o).
+    Forall (handoff_ok chk sent') (handoffs o) /\ Forall (drop_ok sent') (drops o).
 Proof.
   intros HQ HM HOp. cbv zeta.
   destruct op as [a m sh f1 f2|a|a rv|].
@@ -258,7 +261,7 @@ Proof.
       rewrite FS, HS0, HD0. cbn [q_writers q_next].
       split; [constructor|]. split; [intros s []|]. split; [intros s w []|]. split; [intros s []|].
       split; [lia|]. split; [intros w []|split; constructor].
-    + destruct (run_loop_spec (sent ++ [(m, f1, f2)]) (S (length (q_writers q0))) q0 HQ0 HM0)
+    + destruct (run_loop_spec chk (sent ++ [(m, f1, f2)]) (S (length (q_writers q0))) q0 HQ0 HM0)
         as (q' & o & HRun & HQ' & HM' & (n & Hn1 & Hn2) & HN' & HC' & HH & HDr).
       rewrite HRun. exists q', o. cbn [app]. split; [reflexivity|]. split; [exact HQ'|]. split; [exact HM'|].
       destruct HQ0 as (HS0 & HF0 & HN0).
@@ -304,7 +307,7 @@ Proof.
       rewrite FS, HS0, HD0. cbn [q_writers q_next].
       split; [constructor|]. split; [intros s []|]. split; [intros s w []|]. split; [intros s []|].
       split; [lia|]. split; [intros w []|split; constructor].
-    + destruct (run_loop_spec sent (S (length (q_writers q0))) q0 HQ0 HM)
+    + destruct (run_loop_spec chk sent (S (length (q_writers q0))) q0 HQ0 HM)
         as (q' & o & HRun & HQ' & HM' & (n & Hn1 & Hn2) & HN' & HC' & HH & HDr).
       rewrite HRun. exists q', o. cbn [app]. split; [reflexivity|]. split; [exact HQ'|]. split; [exact HM'|].
       destruct HQ0 as (HS0 & HF0 & HN0).
@@ -377,7 +380,7 @@ Definition sends_inv (ops : list ip_op) : Prop :=
 Lemma sent_msgs_cons op r : sent_msgs (op :: r) = sent_msgs [op] ++ sent_msgs r.
 Proof. destruct op; reflexivity. Qed.
 
-Lemma handoff_ok_mono sent ext sm : handoff_ok sent sm -> handoff_ok (sent ++ ext) sm.
+Lemma handoff_ok_mono chk sent ext sm : handoff_ok chk sent sm -> handoff_ok chk (sent ++ ext) sm.
 Proof.
   intros (m & f1 & f2 & H1 & H2). exists m, f1, f2. split; [|exact H2].
   rewrite nth_error_app1; [exact H1|]. apply nth_error_Some. congruence.
@@ -388,19 +391,19 @@ Proof.
   rewrite nth_error_app1; [exact H1|]. apply nth_error_Some. congruence.
 Qed.
 
-Lemma run_spec : forall ops sent q, QInv sent q -> Forall (fun w => Inv (w_msg w)) (q_writers q) ->
+Lemma run_spec chk : forall ops sent q, QInv sent q -> Forall (fun w => Inv (w_msg w)) (q_writers q) ->
   sends_inv ops ->
-  exists q' outs, ip_run q ops = Some (q', outs) /\
+  exists q' outs, ip_run chk q ops = Some (q', outs) /\
     StronglySorted lt (fate_seqs outs) /\
     (forall s, In s (fate_seqs outs) -> (exists w, In w (q_writers q) /\ w_seq w = s) \/ q_next q <= s) /\
-    Forall (handoff_ok (sent ++ sent_msgs ops)) (handoffs outs) /\
+    Forall (handoff_ok chk (sent ++ sent_msgs ops)) (handoffs outs) /\
     Forall (drop_ok (sent ++ sent_msgs ops)) (drops outs).
 Proof.
   induction ops as [|op ops IH]; intros sent q HQ HM HS.
   - exists q, []. cbn [ip_run fate_seqs handoffs drops flat_map]. split; [reflexivity|].
     split; [constructor|]. split; [intros s []|split; constructor].
   - cbn [ip_run].
-    destruct (step_spec sent q op HQ HM) as (q1 & o1 & HStep & HQ1 & HM1 & HSo & HLt & HBel & HOrig & HNx & HW1 & HH1 & HD1).
+    destruct (step_spec chk sent q op HQ HM) as (q1 & o1 & HStep & HQ1 & HM1 & HSo & HLt & HBel & HOrig & HNx & HW1 & HH1 & HD1).
     { intros a m sh f1 f2 ->. eapply HS. left. reflexivity. }
     rewrite HStep.
     destruct (IH (sent ++ sent_msgs [op]) q1 HQ1 HM1) as (q2 & o2 & HRun & HSo2 & HOrig2 & HH2 & HD2).
@@ -436,13 +439,13 @@ Qed.
    that number with an empty header and its body = header ++ body -- or, only
    where the chunk allocation failed (inside nni_msg_insert, whose result is
    ignored), the body alone (pull_up_enomem_loses_header). *)
-Theorem fifo_once ops : sends_inv ops ->
-  exists q outs, ip_run ip_init ops = Some (q, outs) /\
+Theorem fifo_once chk ops : sends_inv ops ->
+  exists q outs, ip_run chk ip_init ops = Some (q, outs) /\
     StronglySorted lt (fate_seqs outs) /\ NoDup (fate_seqs outs) /\
-    Forall (handoff_ok (sent_msgs ops)) (handoffs outs) /\ Forall (drop_ok (sent_msgs ops)) (drops outs).
+    Forall (handoff_ok chk (sent_msgs ops)) (handoffs outs) /\ Forall (drop_ok (sent_msgs ops)) (drops outs).
 Proof.
   intros HS.
-  destruct (run_spec ops [] ip_init) as (q & outs & HR & HSo & _ & HH & HD); auto.
+  destruct (run_spec chk ops [] ip_init) as (q & outs & HR & HSo & _ & HH & HD); auto.
   - split; [constructor|]. split; [constructor|reflexivity].
   - constructor.
   - exists q, outs. split; [exact HR|]. split; [exact HSo|]. split; [apply sorted_lt_nodup; exact HSo|].
@@ -463,13 +466,13 @@ Proof.
   eapply HN. left. reflexivity.
 Qed.
 
-Theorem fifo_exact_no_failure ops : sends_inv ops -> no_alloc_failure ops ->
-  exists q outs, ip_run ip_init ops = Some (q, outs) /\
+Theorem fifo_exact_no_failure chk ops : sends_inv ops -> no_alloc_failure ops ->
+  exists q outs, ip_run chk ip_init ops = Some (q, outs) /\
     StronglySorted lt (map fst (handoffs outs)) /\ drops outs = [] /\
     Forall (fun sm => exists m f1 f2, nth_error (sent_msgs ops) (fst sm) = Some (m, f1, f2) /\
                       abs (snd sm) = ([], m_hdr m ++ body_of m)) (handoffs outs).
 Proof.
-  intros HS HN. destruct (fifo_once ops HS) as (q & outs & HR & HSo & _ & HH & HD).
+  intros HS HN. destruct (fifo_once chk ops HS) as (q & outs & HR & HSo & _ & HH & HD).
   exists q, outs. split; [exact HR|].
   assert (D0: drops outs = []).
   { destruct (drops outs) as [|s r]; [reflexivity|]. exfalso.
@@ -483,6 +486,22 @@ Proof.
     rewrite <- E. exact HSo.
   - eapply Forall_impl; [|exact HH]. intros sm (m & f1 & f2 & H1 & HI & HHd & HB).
     exists m, f1, f2. split; [exact H1|]. unfold abs. rewrite HHd. f_equal.
-    destruct HB as [HB|(HF2 & _)]; [exact HB|].
+    destruct HB as [HB|(_ & HF2 & _)]; [exact HB|].
     destruct (sent_flags _ _ _ _ _ HN H1); subst. discriminate.
+Qed.
+
+(* the repaired pull-up: every message that leaves the queue is delivered with
+   header ++ body or dropped whole (and then an allocation had failed) *)
+Theorem fifo_whole_or_nothing ops : sends_inv ops ->
+  exists q outs, ip_run true ip_init ops = Some (q, outs) /\
+    StronglySorted lt (fate_seqs outs) /\ NoDup (fate_seqs outs) /\
+    Forall (fun sm => exists m f1 f2, nth_error (sent_msgs ops) (fst sm) = Some (m, f1, f2) /\
+                      abs (snd sm) = ([], m_hdr m ++ body_of m)) (handoffs outs) /\
+    Forall (drop_ok (sent_msgs ops)) (drops outs).
+Proof.
+  intros HS. destruct (fifo_once true ops HS) as (q & outs & HR & HSo & HND & HH & HD).
+  exists q, outs. split; [exact HR|]. split; [exact HSo|]. split; [exact HND|]. split; [|exact HD].
+  eapply Forall_impl; [|exact HH]. intros sm (m & f1 & f2 & H1 & HI & HHd & HB).
+  exists m, f1, f2. split; [exact H1|]. unfold abs. rewrite HHd. f_equal.
+  destruct HB as [HB|(HF & _)]; [exact HB|discriminate].
 Qed.
